@@ -70,7 +70,7 @@ impl XmlWorld {
         match self.prop {
             XProp::C15 | XProp::C08 => SchedKnobs { allow_inject: false, allow_collect: false, allow_truncate: false, allow_end_at_pause: false, allow_script_dom: false },
             XProp::C04 => SchedKnobs { allow_inject: false, allow_collect: true, allow_truncate: true, allow_end_at_pause: true, allow_script_dom: false },
-            XProp::C05 => SchedKnobs { allow_inject: false, allow_collect: true, allow_truncate: true, allow_end_at_pause: false, allow_script_dom: false },
+            XProp::C05 => SchedKnobs { allow_inject: false, allow_collect: true, allow_truncate: true, allow_end_at_pause: false, allow_script_dom: true },
             XProp::C18 => SchedKnobs { allow_inject: false, allow_collect: true, allow_truncate: true, allow_end_at_pause: false, allow_script_dom: true },
         }
     }
